@@ -1,8 +1,15 @@
 #!/bin/bash
-# development helper: run every registered thorough command once, sequentially (not a registered check)
+# development helper: run every registered thorough command once (not a registered check).
+# usage: thorough_sweep.sh [ID ...]   (default: all)
 cd "$(dirname "$0")/.."
-for id in C11 C12 C13 C05 C18 C20 C04 C09 C08 C06 C07 C17 C02 C19 C03 C10 C01; do
+IDS="$@"
+[ -z "$IDS" ] && IDS="C11 C12 C13 C05 C18 C20 C04 C09 C08 C06 C07 C17 C02 C19 C03 C10 C14 C15 C16 C01 G01 G02"
+for id in $IDS; do
   echo "=== $id $(date +%H:%M)"
-  timeout 7200 ./check $id --tier thorough 2>&1 | grep -E "VIOLATION|what:|KNOWN-FINDING|tier:|FRAMEWORK" | cut -c1-300
+  t0=$(date +%s)
+  timeout 9000 ./check $id --tier thorough > .work/thorough-$id.log 2>&1
+  rc=$?
+  grep -E "VIOLATION|what:|KNOWN-FINDING|tier:|FRAMEWORK" .work/thorough-$id.log | cut -c1-300
+  echo "--- $id rc=$rc $(( $(date +%s)-t0 ))s"
 done
 echo SWEEPDONE
